@@ -1,0 +1,12 @@
+//go:build verif
+
+// Contracts for the deductive verifier in /verif (govc). Only compiled with -tags verif.
+
+package ifacestate
+
+// interface tasks (the kinds listed in taskKinds) are serialised.
+//@ func Manager$2
+//@   props C07
+//@   ensures result == (old(taskKinds[t.kind]) && exists j int :: 0 <= j && j < len(running) && old(taskKinds[running[j].kind]))
+//@   loop 0: invariant -1 <= idx0 && idx0 < len(running)
+//@   loop 0: invariant forall j int :: 0 <= j && j <= idx0 ==> !taskKinds[running[j].kind]
